@@ -103,48 +103,94 @@ def rule_key(chain, rule):
 
 
 class _PastNetwork(BaseException):
-    """run() reached the step after the network set-up (stubbed from here)."""
+    """run() reached exec_pid1: the start succeeded (stubbed from here)."""
 
 
-def _stop_after_network(*_args, **_kwargs):
+def _exec_pid1(*_args, **_kwargs):
     raise _PastNetwork()
+
+
+def _no_root_dir(container_dir, _localdisk):
+    """Stands in for _run._create_root_dir (mkfs / unshare / mount)."""
+    return os.path.join(container_dir, 'root')
 
 
 class _OtherClient:
     """Client of a resource service that is not under test."""
 
-    def __init__(self, reply):
-        self._reply = reply
+    def __init__(self, service):
+        self._service = service
 
     def put(self, _rsrc_id, _rsrc_data):
         pass
 
-    def wait(self, _rsrc_id, timeout=None):
-        return dict(self._reply)
+    def wait(self, rsrc_id, timeout=None):
+        fault = self._service.fault
+        if fault is not None:
+            self._service.fired += 1
+            if fault == 'error':
+                raise _base_service.ResourceServiceRequestError(
+                    'injected failure', {'id': rsrc_id})
+            raise _base_service.ResourceServiceTimeoutError(
+                'Resource %r not available in time' % rsrc_id)
+        return dict(self._service.reply)
 
     def get(self, _rsrc_id):
-        return dict(self._reply)
+        return dict(self._service.reply)
 
     def delete(self, _rsrc_id):
         pass
 
 
 class _OtherService:
-    """cgroup / localdisk / presence service: replies at once."""
+    """cgroup / localdisk / presence service: replies at once; the op can
+    make it answer with an _error reply or not at all (`fault`)."""
 
     def __init__(self, reply):
-        self._reply = reply
+        self.reply = reply
+        self.fault = None    # None | 'error' | 'timeout'
+        self.fired = 0
 
     def make_client(self, _client_dir):
-        return _OtherClient(self._reply)
+        return _OtherClient(self)
+
+
+class _Image:
+    def unpack(self, *_args, **_kwargs):
+        pass
 
 
 class _NoImage:
-    """treadmill.runtime.linux.image of _run: never unpacked here."""
+    """treadmill.runtime.linux.image of _run: nothing is unpacked."""
 
     @staticmethod
     def get_image(_tm_env, _manifest):
-        return None
+        return _Image()
+
+
+class _RuntimeConfig:
+    host_mount_whitelist = []
+
+
+class _FsLinux(netshims.Strict):
+    _what = 'fs_linux'
+
+    def cleanup_mounts(self, _whitelist):
+        pass
+
+
+class _AppHook(netshims.Strict):
+    _what = 'apphook'
+
+    def configure(self, _tm_env, _app, _container_dir):
+        pass
+
+
+class _Subproc(netshims.Strict):
+    """subproc of _run: exec_pid1 is where a successful start ends."""
+    _what = 'subproc'
+    _real = subproc
+    exec_pid1 = staticmethod(_exec_pid1)
 
 
 class _Lease:
@@ -205,7 +251,8 @@ class World:
                 'order_permuted_listings', 'layout_with_symlinked_dirs'), 0)
             self.faults = dict.fromkeys((
                 'start_killed', 'finish_killed', 'finish_killed_then_repeated',
-                'command_failed', 'eaddrinuse', 'resolver_failed'), 0)
+                'command_failed', 'eaddrinuse', 'resolver_failed',
+                'presence_failed'), 0)
         # -- fakes
         self.netdev = netshims.FakeNetdev(seam, subproc, EXT_DEV,
                                           real=real_netdev)
@@ -1322,11 +1369,13 @@ class World:
             else:
                 # the real run(): resource requests, wait for the replies
                 # (the network service works while the start waits), port
-                # allocation, save_app and _unshare_network in the code's
-                # own order; it is stopped where it would create the root
-                # volume (_create_root_dir raises _PastNetwork)
+                # allocation, save_app, _unshare_network, presence
+                # registration in the code's own order, up to exec_pid1
+                # (root volume, image, mounts, apphook are stand-ins)
+                self.tm_env.svc_presence.fault = op.get('presence_fault')
+                self.tm_env.svc_presence.fired = 0
                 try:
-                    _run.run(self.tm_env, None, data_dir, man)
+                    _run.run(self.tm_env, _RuntimeConfig, data_dir, man)
                     raise simkit.HarnessError('run() went past the stub')
                 except _PastNetwork:
                     pass
@@ -1352,6 +1401,10 @@ class World:
             self.sock.release(name)
             self.log.ev('c_start', name, 'aborted', type(err).__name__,
                         str(err)[:80])
+        if self.prop == 'C16' and self.tm_env.svc_presence.fired:
+            self.faults['presence_failed'] += 1
+        self.tm_env.svc_presence.fault = None
+        self.tm_env.svc_presence.fired = 0
         collided = self.sock.collisions - coll0
         if collided:
             self.probes['port_collisions'] += collided
@@ -2074,6 +2127,12 @@ class Generator:
         op = {'name': name, 'pid': self.pids,
               'rkey': self.rng.randint(1, 1 << 30), 'ord': self.order()}
         self._resolve_fault(op, man)
+        if not man['shared_network'] and self.frng.random() < \
+                self.config.get('p_presence_fault', 0.0):
+            # the last step of the start: presence registration is answered
+            # with an error, or not in time
+            op['presence_fault'] = self.frng.choice(['error', 'timeout'])
+            return op
         return self._faults(op, est, self.config['p_start_kill'],
                             self.config['p_cmd_fail'])
 
@@ -2184,6 +2243,7 @@ def make_config(prop, tier, rng):
     cfg['layout'] = layout
     cfg['p_stat_fault'] = rng.choice([0.0, 0.1, 0.25])
     cfg['p_resolve_fault'] = rng.choice([0.0, 0.15, 0.35])
+    cfg['p_presence_fault'] = rng.choice([0.0, 0.1, 0.25])
     # further VipMgr pools (other, disjoint CIDRs) on the same directory
     extra = rng.choice([[], [], ['10.21.0.0/30'], ['10.21.0.0/29'],
                         ['10.21.0.0/30', '10.22.0.0/29']])
@@ -2234,16 +2294,18 @@ class NetSim(enginemod.Engine):
         '(initialize, watcher, _check_requests, _on_created for each, '
         'synchronize; then process_events(MAX_REQUEST_PER_CYCLE) + '
         '_check_requests per svc_step op)',
-        'runtime.linux._run.run is the real function from its first line '
-        'up to and including _unshare_network (resource requests, waits, '
-        'allocate_network_ports, save_app, _unshare_network in the code\'s '
-        'own order); it is stopped at _create_root_dir (stub raising), so '
-        'root volume, image unpack, mount clean-up, apphook, presence and '
-        'exec are not run; image.get_image is stubbed; the cgroup, localdisk '
-        'and presence services of tm_env are stand-ins that reply at once '
-        '(empty cgroup reply: nothing is joined); shared-network containers '
-        'do not go through run() (it would wait 15 min for a network reply '
-        'it never requested): ports + save_app only',
+        'runtime.linux._run.run is the real function from its first to its '
+        'last line (resource requests, waits, allocate_network_ports, '
+        'save_app, _unshare_network, presence registration, in the code\'s '
+        'own order) and ends at subproc.exec_pid1 (stub); stand-ins in '
+        'between: _create_root_dir (no mkfs/unshare/mount), '
+        'image.get_image/unpack, fs_linux.cleanup_mounts, apphook.configure; '
+        'the cgroup, localdisk and presence services of tm_env are stand-ins '
+        'that reply at once (empty cgroup reply: nothing is joined) - the '
+        'presence one answers with an _error reply or not in time when the '
+        'op says so ("presence_fault"); shared-network containers do not go '
+        'through run() (it would wait 15 min for a network reply it never '
+        'requested): ports + save_app only',
         'services._base_service.wait_for_file (inotify wait with a real-time '
         'timeout): while a client waits the harness lets the network service '
         'process its events; timeout when the service is down or idle',
@@ -2508,7 +2570,10 @@ class NetSim(enginemod.Engine):
         patches.set(_run, 'os', fsseam.SeamOS(
             seam, {'getpid': world.pid.getpid}))
         patches.set(_run, 'image', _NoImage)
-        patches.set(_run, '_create_root_dir', _stop_after_network)
+        patches.set(_run, '_create_root_dir', _no_root_dir)
+        patches.set(_run, 'fs_linux', _FsLinux())
+        patches.set(_run, 'apphook', _AppHook())
+        patches.set(_run, 'subproc', _Subproc())
         patches.set(_base_service, 'wait_for_file', world.wait_for_file)
         patches.set(_finish, 'iptables', world.ipt)
         patches.set(_finish, 'socket', world.sock)
